@@ -114,6 +114,9 @@ func cmdVC(args []string) {
 	for _, e := range c.Errors {
 		fmt.Println("ERROR:", e)
 	}
+	for _, n := range c.Notes {
+		fmt.Println("NOTE:", n)
+	}
 	res := vc.SolveAll(all, vc.SolverOpts{TimeoutSec: *timeout, FirstTimeout: 3, Workers: 16, WantModel: *model})
 	type agg struct {
 		name   string
